@@ -1,4 +1,230 @@
+/-
+Property C10 — retry, stop, replay and verdict rules are followed exactly (rule level).
+The theorems are about the executable model `I2N.Rules` that the compiled driver `drv_rules` runs.
+-/
 import I2N.Model.Rules
+import I2N.Lemmas.Rules
 namespace I2N.Props.C10
-theorem placeholder : True := trivial
+deriving instance DecidableEq for Except
+open I2N.Rules I2N.Extracted.Rules I2N.Lemmas.Rules
+
+/-! ## 1. The retry rule (`should_rerun`) -/
+
+
+def Reaches (c : Cfg) (w : Option Worker) : Prop :=
+  (c.dryRun.getD dryRunDefault == dryRunYes) = false ∧ c.flat = false ∧ c.cloneSource = false ∧
+  wrongWorker c w = false
+
+structure Valid (c : Cfg) (m : Int) : Prop where
+  rerun : ∀ s ∈ rerunList c, s ∈ allStatuses
+  stop : ∀ s ∈ stopList c, s ∈ allStatuses
+  tries : maxTriesOf c = some m
+  nonneg : 0 ≤ m
+
+def TriesRemain (m : Int) (n : Nat) : Prop := m ≠ maxTriesNoRerun ∧ (n : Int) < m
+
+theorem rerun_iff {c : Cfg} {w : Option Worker} {shared : List Result} {m : Int}
+    (hr : Reaches c w) (hv : Valid c m) :
+    ∃ b, shouldRerun c w shared = .ok b ∧
+      (b = true ↔ TriesRemain m (statusesOf c w shared).length ∧
+        (∀ s ∈ statusesOf c w shared, s ∈ rerunList c) ∧
+        (∀ s ∈ statusesOf c w shared, s ∉ stopList c)) := by
+  obtain ⟨h1, h2, h3, h4⟩ := hr
+  have hR : (rerunList c).all (fun s => allStatuses.contains s) = true := by
+    simp only [List.all_eq_true, List.contains_iff_mem]; exact hv.rerun
+  have hS : (stopList c).all (fun s => allStatuses.contains s) = true := by
+    simp only [List.all_eq_true, List.contains_iff_mem]; exact hv.stop
+  have hneg : ¬ (m < 0) := by have := hv.nonneg; omega
+  unfold shouldRerun
+  simp only [h1, h2, h3, h4, hR, hS, hv.tries, hneg, Bool.false_eq_true, if_false, Bool.not_true]
+  generalize statusesOf c w shared = sts
+  by_cases ha : sts.all (fun s => (rerunList c).contains s) = true
+  · have ha' : ∀ s ∈ sts, s ∈ rerunList c := by
+      simpa only [List.all_eq_true, List.contains_iff_mem] using ha
+    by_cases hb : (stopList c).any (fun s => sts.contains s) = true
+    · refine ⟨false, by simp only [ha, hb, Bool.not_true, Bool.false_eq_true, if_false, if_true], ?_⟩
+      simp only [List.any_eq_true, List.contains_iff_mem] at hb
+      obtain ⟨x, hx1, hx2⟩ := hb
+      constructor
+      · intro h; cases h
+      · intro ⟨_, _, h⟩; exact absurd hx1 (h x hx2)
+    · have hb' : ∀ s ∈ sts, s ∉ stopList c := by
+        intro s hs hmem
+        exact hb (by simp only [List.any_eq_true, List.contains_iff_mem]; exact ⟨s, hmem, hs⟩)
+      refine ⟨_, by simp only [ha, hb, Bool.not_true, Bool.false_eq_true, if_false]; rfl, ?_⟩
+      simp only [decide_eq_true_eq, TriesRemain]
+      constructor
+      · intro h
+        refine ⟨?_, ha', hb'⟩
+        by_cases hm : (m == maxTriesNoRerun) = true
+        · simp only [hm, if_true] at h; omega
+        · simp only [hm, Bool.false_eq_true, if_false] at h
+          refine ⟨fun e => hm (by simp [e]), by omega⟩
+      · intro ⟨⟨h1, h2⟩, _, _⟩
+        have hm : (m == maxTriesNoRerun) = false := by simp [h1]
+        simp only [hm, Bool.false_eq_true, if_false]; omega
+  · refine ⟨false, by simp only [ha, Bool.not_false, if_true], ?_⟩
+    constructor
+    · intro h; cases h
+    · intro ⟨_, h, _⟩
+      exact absurd (by simpa only [List.all_eq_true, List.contains_iff_mem] using h) ha
+
+theorem invalid_rerun_status {c : Cfg} {w : Option Worker} {shared : List Result}
+    (hr : Reaches c w) (h : ∃ s ∈ rerunList c, s ∉ allStatuses) :
+    shouldRerun c w shared = .error .badRerunStatus := by
+  obtain ⟨h1, h2, h3, h4⟩ := hr
+  have hR : (rerunList c).all (fun s => allStatuses.contains s) = false := by
+    obtain ⟨s, hs, hn⟩ := h
+    rw [Bool.eq_false_iff]; intro hall
+    simp only [List.all_eq_true, List.contains_iff_mem] at hall
+    exact hn (hall s hs)
+  unfold shouldRerun
+  simp only [h1, h2, h3, h4, hR, Bool.false_eq_true, if_false, Bool.not_false, if_true]
+
+theorem invalid_stop_status {c : Cfg} {w : Option Worker} {shared : List Result}
+    (hr : Reaches c w) (hrr : ∀ s ∈ rerunList c, s ∈ allStatuses)
+    (h : ∃ s ∈ stopList c, s ∉ allStatuses) :
+    shouldRerun c w shared = .error .badStopStatus := by
+  obtain ⟨h1, h2, h3, h4⟩ := hr
+  have hR : (rerunList c).all (fun s => allStatuses.contains s) = true := by
+    simp only [List.all_eq_true, List.contains_iff_mem]; exact hrr
+  have hS : (stopList c).all (fun s => allStatuses.contains s) = false := by
+    obtain ⟨s, hs, hn⟩ := h
+    rw [Bool.eq_false_iff]; intro hall
+    simp only [List.all_eq_true, List.contains_iff_mem] at hall
+    exact hn (hall s hs)
+  unfold shouldRerun
+  simp only [h1, h2, h3, h4, hR, hS, Bool.false_eq_true, if_false, Bool.not_false, Bool.not_true, if_true]
+
+theorem invalid_max_tries {c : Cfg} {w : Option Worker} {shared : List Result}
+    (hr : Reaches c w) (hrr : ∀ s ∈ rerunList c, s ∈ allStatuses) (hss : ∀ s ∈ stopList c, s ∈ allStatuses)
+    (h : maxTriesOf c = none) :
+    shouldRerun c w shared = .error .badTries := by
+  obtain ⟨h1, h2, h3, h4⟩ := hr
+  have hR : (rerunList c).all (fun s => allStatuses.contains s) = true := by
+    simp only [List.all_eq_true, List.contains_iff_mem]; exact hrr
+  have hS : (stopList c).all (fun s => allStatuses.contains s) = true := by
+    simp only [List.all_eq_true, List.contains_iff_mem]; exact hss
+  unfold shouldRerun
+  simp only [h1, h2, h3, h4, hR, hS, h, Bool.false_eq_true, if_false, Bool.not_true]
+
+theorem negative_max_tries {c : Cfg} {w : Option Worker} {shared : List Result} {m : Int}
+    (hr : Reaches c w) (hrr : ∀ s ∈ rerunList c, s ∈ allStatuses) (hss : ∀ s ∈ stopList c, s ∈ allStatuses)
+    (h : maxTriesOf c = some m) (hm : m < 0) :
+    shouldRerun c w shared = .error .negativeTries := by
+  obtain ⟨h1, h2, h3, h4⟩ := hr
+  have hR : (rerunList c).all (fun s => allStatuses.contains s) = true := by
+    simp only [List.all_eq_true, List.contains_iff_mem]; exact hrr
+  have hS : (stopList c).all (fun s => allStatuses.contains s) = true := by
+    simp only [List.all_eq_true, List.contains_iff_mem]; exact hss
+  unfold shouldRerun
+  simp only [h1, h2, h3, h4, hR, hS, h, hm, Bool.false_eq_true, if_false, Bool.not_true, if_true]
+
+/-- invalid retry settings are never ignored: whenever the decision gets as far as the retry rule and
+answers at all, the settings are valid -/
+theorem invalid_rejected {c : Cfg} {w : Option Worker} {shared : List Result} {b : Bool}
+    (hr : Reaches c w) (h : shouldRerun c w shared = .ok b) : ∃ m, Valid c m := by
+  by_cases hrr : ∀ s ∈ rerunList c, s ∈ allStatuses
+  · by_cases hss : ∀ s ∈ stopList c, s ∈ allStatuses
+    · cases hm : maxTriesOf c with
+      | none => rw [invalid_max_tries hr hrr hss hm] at h; cases h
+      | some m =>
+        by_cases hneg : m < 0
+        · rw [negative_max_tries hr hrr hss hm hneg] at h; cases h
+        · exact ⟨m, hrr, hss, hm, by omega⟩
+    · have : ∃ s ∈ stopList c, s ∉ allStatuses := by
+        apply Classical.byContradiction; intro hne
+        apply hss; intro s hs
+        apply Classical.byContradiction; intro hn
+        exact hne ⟨s, hs, hn⟩
+      rw [invalid_stop_status hr hrr this] at h; cases h
+  · have : ∃ s ∈ rerunList c, s ∉ allStatuses := by
+      apply Classical.byContradiction; intro hne
+      apply hrr; intro s hs
+      apply Classical.byContradiction; intro hn
+      exact hne ⟨s, hs, hn⟩
+    rw [invalid_rerun_status hr this] at h; cases h
+
+theorem wrong_worker_rejected {c : Cfg} {w : Option Worker} {shared : List Result}
+    (h1 : (c.dryRun.getD dryRunDefault == dryRunYes) = false) (h2 : c.flat = false) (h3 : c.cloneSource = false)
+    (h4 : wrongWorker c w = true) : shouldRerun c w shared = .error .runtimeError := by
+  unfold shouldRerun
+  simp only [h1, h2, h3, h4, Bool.false_eq_true, if_false, if_true]
+
+
+/-! ## 3. The verdict (`all_results_ok`) -/
+
+
+theorem anyOk_spec (name : String) (l : List JobRes) (hv : ∀ t ∈ l, (statusOk t.status).isSome = true) :
+    ∃ b, anyOk name l = .ok b ∧
+      (b = true ↔ ∃ r ∈ l, r.name = name ∧ statusOk r.status = some true) := by
+  induction l with
+  | nil => exact ⟨false, rfl, by simp⟩
+  | cons t ts ih =>
+    obtain ⟨b, hb, hiff⟩ := ih (fun x hx => hv x (List.mem_cons_of_mem _ hx))
+    have ht := hv t List.mem_cons_self
+    unfold anyOk
+    by_cases hn : (t.name == name) = true
+    · have hn' : t.name = name := by simpa using hn
+      simp only [hn, if_true]
+      cases hs : statusOk t.status with
+      | none => rw [hs] at ht; cases ht
+      | some v =>
+        cases v with
+        | true => exact ⟨true, rfl, by simp only [true_iff]; exact ⟨t, List.mem_cons_self, hn', hs⟩⟩
+        | false =>
+          refine ⟨b, hb, hiff.trans ?_⟩
+          constructor
+          · intro ⟨r, hr, h1, h2⟩; exact ⟨r, List.mem_cons_of_mem _ hr, h1, h2⟩
+          · intro ⟨r, hr, h1, h2⟩
+            rcases List.mem_cons.mp hr with rfl | hr
+            · rw [hs] at h2; cases h2
+            · exact ⟨r, hr, h1, h2⟩
+    · have hn' : t.name ≠ name := by simpa using hn
+      simp only [hn, Bool.false_eq_true, if_false]
+      refine ⟨b, hb, hiff.trans ?_⟩
+      constructor
+      · intro ⟨r, hr, h1, h2⟩; exact ⟨r, List.mem_cons_of_mem _ hr, h1, h2⟩
+      · intro ⟨r, hr, h1, h2⟩
+        rcases List.mem_cons.mp hr with rfl | hr
+        · exact absurd h1 hn'
+        · exact ⟨r, hr, h1, h2⟩
+
+theorem allOkLoop_spec (all rest : List JobRes) (hv : ∀ t ∈ all, (statusOk t.status).isSome = true) :
+    ∃ b, allOkLoop all rest = .ok b ∧
+      (b = true ↔ ∀ t ∈ rest, ∃ r ∈ all, r.name = t.name ∧ statusOk r.status = some true) := by
+  induction rest with
+  | nil => exact ⟨true, rfl, by simp⟩
+  | cons t ts ih =>
+    obtain ⟨b, hb, hiff⟩ := ih
+    obtain ⟨a, ha, haiff⟩ := anyOk_spec t.name all hv
+    unfold allOkLoop
+    rw [ha]
+    cases a with
+    | false =>
+      refine ⟨false, rfl, ?_⟩
+      constructor
+      · intro h; cases h
+      · intro h
+        have := haiff.mpr (h t List.mem_cons_self)
+        cases this
+    | true =>
+      refine ⟨b, hb, hiff.trans ?_⟩
+      constructor
+      · intro h x hx
+        rcases List.mem_cons.mp hx with rfl | hx
+        · exact haiff.mp rfl
+        · exact h x hx
+      · intro h x hx; exact h x (List.mem_cons_of_mem _ hx)
+
+/-- the run is reported successful by `all_results_ok` exactly when every test in the job result has at
+least one acceptable result (same name, status mapped to `True`) -/
+theorem verdict_iff (tests : List JobRes) (hv : ∀ t ∈ tests, (statusOk t.status).isSome = true) :
+    ∃ b, allResultsOk tests = .ok b ∧
+      (b = true ↔ ∀ t ∈ tests, ∃ r ∈ tests, r.name = t.name ∧ statusOk r.status = some true) :=
+  allOkLoop_spec tests tests hv
+
+example : allResultsOk [⟨"a", "1", "FAIL", 1⟩, ⟨"a", "1r1", "PASS", 1⟩, ⟨"b", "2", "SKIP", 1⟩] = .ok true := by decide
+example : allResultsOk [⟨"a", "1", "FAIL", 1⟩, ⟨"b", "2", "PASS", 1⟩] = .ok false := by decide
+
 end I2N.Props.C10
